@@ -399,3 +399,41 @@ Definition run_pact (start : bool) (w : world) (x : pact) : world :=
 Theorem proto_start_stop_are_the_translated_source w :
   proto_start w = fold_left (run_pact true) gen_proto_start w /\ proto_stop w = fold_left (run_pact false) gen_proto_stop w.
 Proof. split; reflexivity. Qed.
+
+(* ------------------------------------------------------------------ ServiceAnnouncer: handle_subscribe, announce / stop_announce *)
+Theorem announcer_handle_subscribe_is_the_translated_source e a w :
+  announcer_handle_subscribe e a w
+  = let r := fold_left (fun acc i => let '(w', m) := inst_handle_subscribe e a i (fst acc) in (w', snd acc || m)) (announcing w) (w, false) in
+    if gen_announcer_subscribe_nack (snd r) then send_subscribe_nack (from_subscribe_entry e) a (fst r) else fst r.
+Proof.
+  unfold announcer_handle_subscribe, gen_announcer_subscribe_nack. cbv zeta.
+  destruct (fold_left _ (announcing w) (w, false)) as [w1 any]. destruct any; reflexivity.
+Qed.
+(* ok = false: an exception left the call (instance.start() raising RuntimeError, list.remove raising ValueError) *)
+Definition run_aact (i : N) (s : world * bool) (x : aact) : world * bool :=
+  let '(w, ok) := s in
+  if negb ok then s else
+  match x with
+  | AStartInstance => inst_start i w
+  | AAppend => (set_announcing (announcing w ++ [i]) w, true)
+  | ARaiseValueError => (emit (ERaised (err_code EValue)) w, false)
+  | ARemove => (match remove_first N.eqb i (announcing w) with Some l => set_announcing l w | None => w end, true)
+  | AStopInstance => (fst (inst_stop i w), true)
+  end.
+Theorem announce_service_is_the_translated_source i w :
+  announce_service i w = fst (fold_left (run_aact i) (gen_announce_service (ann_started w)) (w, true)).
+Proof.
+  unfold announce_service, gen_announce_service. destruct (ann_started w); cbn [app fold_left run_aact negb]; [|reflexivity].
+  destruct (inst_start i w) as [w1 ok]. destruct ok; reflexivity.
+Qed.
+Theorem stop_announce_service_is_the_translated_source i send_stop w :
+  stop_announce_service i send_stop w
+  = fst (fold_left (run_aact i)
+           (gen_stop_announce_service (match remove_first N.eqb i (announcing w) with Some _ => true | None => false end) send_stop (ann_started w))
+           (w, true)).
+Proof.
+  unfold stop_announce_service, gen_stop_announce_service.
+  destruct (remove_first N.eqb i (announcing w)) as [l|] eqn:E; cbn [negb fold_left run_aact fst]; [|reflexivity].
+  rewrite E. change (ann_started (set_announcing l w)) with (ann_started w).
+  destruct (send_stop && ann_started w); reflexivity.
+Qed.
